@@ -23,6 +23,10 @@ def spline_params(rng, zlo, zhi, n_sy=None, n_t=None, oscillating=False):
     while len(zk) < 4:
         zk.append(zk[-1] + 10.0)
     tk = sorted(set(knots(n_t, zlo - pad * rng.choice([1, -0.2]), zhi + pad)))
+    if rng.random() < 0.3 and len(tk) >= 3 and tk[0] < 0.0 < tk[-1]:
+        i0 = min(range(1, len(tk) - 1), key=lambda i: abs(tk[i]))
+        tk[i0] = 0.0                               # a conductivity knot at the peat surface
+        tk = sorted(set(tk))
     # specific yield must stay positive between knots (a cubic through random values may overshoot)
     common.import_spowtd()
     import spowtd.specific_yield as sym
